@@ -249,8 +249,9 @@ def gen_cpp(target, ent, info, pre, oracle, max_n, repo, gen, sanitize):
         retdecl, call_assign = '%s bg_ret = 0;' % rt, 'bg_ret = '
     elif rt in ('VLabel', 'NoLabel', 'EdgeMultiplicity', 'bg_real'):
         retdecl, call_assign = '%s bg_ret = %s{};' % (rt, rt), 'bg_ret = abs_label('
-    elif rt == info['abs']:
-        retdecl, call_assign = 'Abs bg_ret; Cells<%s> ret_cells; G real_ret(0);' % info['abslabel'], 'real_ret = '
+    elif re.match(r'^struct (LDG|LUG)_\w+$', rt) and classify(rt[len('struct '):] + '__x'):
+        rinfo = classify(rt[len('struct '):] + '__x')
+        retdecl, call_assign = '%s bg_ret; Cells<%s> ret_cells; %s real_ret(0);' % (rinfo['abs'], rinfo['abslabel'], rinfo['graph']), 'real_ret = '
     elif rt in ('bg_vec_sz', 'bg_mat_sz'):
         retdecl, call_assign = '%s bg_ret = %s();' % (rt, rt), 'bg_ret = abs_vec('
     else:
@@ -301,7 +302,7 @@ def gen_cpp(target, ent, info, pre, oracle, max_n, repo, gen, sanitize):
         L.append('      Abs post_abs; Cells<%s> post_cells; alpha(*gp, post_abs, post_cells);' % info['abslabel'])
     else:
         L.append('      try { %sg.%s(%s)%s; } BG_CATCH_ALL' % (call_assign, method, ', '.join(args), close))
-        if rt == info['abs']:
+        if call_assign == 'real_ret = ':
             L.append('      alpha(real_ret, bg_ret, ret_cells);')
         L.append('      Abs post_abs; Cells<%s> post_cells; alpha(g, post_abs, post_cells);' % info['abslabel'])
     L.append('      bg_self = &post_abs;')
